@@ -315,27 +315,30 @@ func (c *FnCtx) appendModel(st *State, s Term, key string, hs Sort, addLen Term,
 	nb := c.allocRef(st)
 	cp := c.fresh("appcap", SInt)
 	c.define(ge(cp, newLen))
-	tb := ite(inplace, sBase(s), nb)
-	roff := ite(inplace, sOff(s), tZero)
 	oldArr := sel(h, sBase(s))
-	A := c.fresh("apparr", elemArr)
-	// prefix preserved
-	c.define(Term{fmt.Sprintf("(forall ((i! Int)) (=> (and (<= 0 i!) (< i! %s)) (= (select %s (+ %s i!)) (select %s (+ %s i!)))))",
-		sLen(s).S, A.S, roff.S, oldArr.S, sOff(s).S), SBool})
-	// appended part
+	// fresh case: a new array F (offset 0) holding the old prefix followed by the appended elements
+	F := c.fresh("apparr", elemArr)
+	c.define(Term{fmt.Sprintf("(forall ((k! Int)) (! (=> (and (<= 0 k!) (< k! %s)) (= (select %s k!) (select %s (+ %s k!)))) :pattern ((select %s k!))))",
+		sLen(s).S, F.S, oldArr.S, sOff(s).S, F.S), SBool})
+	// in-place case: the old array with the cells [off+len, off+len+n) overwritten
+	var I Term
 	if constN >= 0 {
+		I = oldArr
 		for j := 0; j < constN; j++ {
-			c.define(eq(sel(A, add(roff, add(sLen(s), intLit(int64(j))))), src(intLit(int64(j)))))
+			v := src(intLit(int64(j)))
+			I = store(I, add(sOff(s), add(sLen(s), intLit(int64(j)))), v)
+			c.define(eq(sel(F, add(sLen(s), intLit(int64(j)))), v))
 		}
 	} else {
-		c.define(Term{fmt.Sprintf("(forall ((i! Int)) (=> (and (<= 0 i!) (< i! %s)) (= (select %s (+ %s (+ %s i!))) %s)))",
-			addLen.S, A.S, roff.S, sLen(s).S, src(Term{"i!", SInt}).S), SBool})
+		I = c.fresh("apparr_inpl", elemArr)
+		lo := add(sOff(s), sLen(s))
+		c.define(Term{fmt.Sprintf("(forall ((k! Int)) (! (= (select %s k!) (ite (and (<= %s k!) (< k! (+ %s %s))) %s (select %s k!))) :pattern ((select %s k!))))",
+			I.S, lo.S, lo.S, addLen.S, src(sub(Term{"k!", SInt}, lo)).S, oldArr.S, I.S), SBool})
+		c.define(Term{fmt.Sprintf("(forall ((k! Int)) (! (=> (and (<= %s k!) (< k! (+ %s %s))) (= (select %s k!) %s)) :pattern ((select %s k!))))",
+			sLen(s).S, sLen(s).S, addLen.S, F.S, src(sub(Term{"k!", SInt}, sLen(s))).S, F.S), SBool})
 	}
-	// in place: the rest of the backing array is untouched
-	c.define(implies(inplace, Term{fmt.Sprintf("(forall ((i! Int)) (=> (not (and (<= (+ %s %s) i!) (< i! (+ %s %s)))) (= (select %s i!) (select %s i!))))",
-		sOff(s).S, sLen(s).S, sOff(s).S, newLen.S, A.S, oldArr.S), SBool}))
-	c.elemArrayWellTypedIfSrc(key, A)
-	st.heaps[key] = store(h, tb, A)
+	c.elemArrayWellTyped(key, F)
+	st.heaps[key] = ite(inplace, store(h, sBase(s), I), store(h, nb, F))
 	return ite(inplace, mkSlice(sBase(s), sOff(s), newLen, sCap(s)), mkSlice(nb, tZero, newLen, cp))
 }
 
